@@ -145,13 +145,19 @@ def execute(sc, ctx):
     # `kconfgen --output cdep_tree A --output cdep_tree B`).
     reuse = bool(sc.get("reuse")) and sc["crash_step"] is None
 
+    # the aliases of an option, from the rename file itself (last mapping of a deprecated name wins) - not from the
+    # reverse map of the code under test, which is what sync_deps() consults
+    forward = {}
+    for ln in (sc.get("renames") or "").splitlines():
+        parts = ln.split()
+        if len(parts) == 2 and parts[0].startswith("CONFIG_") and parts[1].lstrip("!").startswith("CONFIG_"):
+            forward[parts[0][len("CONFIG_"):]] = parts[1].lstrip("!")[len("CONFIG_"):]
+    alias_model = {}
+    for old, new in forward.items():
+        alias_model.setdefault(new, []).append(old)
+
     def describe(k):
-        aliases = {}
-        if k._deprecated_options:
-            for s in k.unique_defined_syms:
-                al = list(k._deprecated_options.get_deprecated_option(s.name))
-                if al:
-                    aliases[s.name] = al
+        aliases = {s.name: list(alias_model[s.name]) for s in k.unique_defined_syms if s.name in alias_model} if rn else {}
         return (k, _H(k), _R(k), aliases)
 
     def assign(k, pairs):
